@@ -4,6 +4,7 @@ import (
 	"bytes"
 	"context"
 	"encoding/json"
+	"errors"
 	"fmt"
 	"io"
 	"sort"
@@ -13,6 +14,7 @@ import (
 
 	"perkeep.org/pkg/blob"
 	"perkeep.org/pkg/index"
+	"perkeep.org/pkg/sorted"
 
 	"verif/harness"
 	"verif/sim"
@@ -82,6 +84,12 @@ type Op struct {
 
 func (o Op) barrier() bool { return o.K != "deliver" && o.K != "bulk" }
 
+// A "faildeliver" op (a barrier: it runs alone, at quiescence) delivers item I
+// by client C while the index's rows refuse the commit of that very blob once
+// (an I/O error of the key/value store). The client sees the upload fail; the
+// blob counts as not delivered (it is taken out of the blob source again) and
+// may be delivered by a later op.
+
 func (e engine) Gen(prop, tier string, run int, r *simcore.Rand) *harness.Plan {
 	switch prop {
 	case "C05":
@@ -112,7 +120,7 @@ func (e engine) Exec(rc *harness.RunCtx, p *harness.Plan) (out *harness.Outcome)
 		return &harness.Outcome{Inconclusive: "world: " + err.Error()}
 	}
 	for _, op := range ops {
-		if op.K == "deliver" && !w.valid(op.I) {
+		if (op.K == "deliver" || op.K == "faildeliver") && !w.valid(op.I) {
 			return &harness.Outcome{Inconclusive: "op refers to an item outside the world"}
 		}
 	}
@@ -174,9 +182,110 @@ type session struct {
 	nput      int
 	waited    map[string]bool // refs for which a missing| row was written and that are not indexed yet
 	// fillers delivered by bulk ops (ref -> true); never part of the world
-	fillers   map[string]bool
+	fillers map[string]bool
+	// faultKV: the index rows are wrapped in a store whose CommitBatch can
+	// be made to fail; failHave: "have:<ref>" keys whose batch fails once
+	faultKV   bool
+	failHave  map[string]bool
 	stallMiss time.Duration
 	nstall    int
+}
+
+// errCommit is the injected failure of a CommitBatch.
+var errCommit = fmt.Errorf("%w: index rows: CommitBatch failed", sim.ErrInjected)
+
+// faultKV fails the commit of a batch that holds an armed key, once, without
+// applying anything of it.
+type faultKV struct {
+	sorted.KeyValue
+	s *session
+}
+
+type faultBatch struct {
+	sorted.BatchMutation
+	keys []string
+}
+
+func (b *faultBatch) Set(k, v string) {
+	b.keys = append(b.keys, k)
+	b.BatchMutation.Set(k, v)
+}
+
+func (b *faultBatch) Delete(k string) {
+	b.keys = append(b.keys, k)
+	b.BatchMutation.Delete(k)
+}
+
+func (kv faultKV) BeginBatch() sorted.BatchMutation {
+	return &faultBatch{BatchMutation: kv.KeyValue.BeginBatch()}
+}
+
+func (kv faultKV) CommitBatch(bm sorted.BatchMutation) error {
+	fb, ok := bm.(*faultBatch)
+	if !ok {
+		return kv.KeyValue.CommitBatch(bm)
+	}
+	kv.s.mu.Lock()
+	hit := false
+	for _, k := range fb.keys {
+		if kv.s.failHave[k] {
+			delete(kv.s.failHave, k)
+			hit = true
+		}
+	}
+	if hit {
+		kv.s.reach["commit-failure-injected"]++
+	}
+	kv.s.mu.Unlock()
+	if hit {
+		simcore.Yield("indexsim.kv.commit.fail")
+		return errCommit
+	}
+	return kv.KeyValue.CommitBatch(fb.BatchMutation)
+}
+
+// failDeliver executes a faildeliver op as a task of its own and reports
+// whether the delivery failed with the injected error (then the blob is not
+// delivered) or went through (then it is an ordinary delivery: the commit the
+// fault was armed for did not happen, e.g. because a dependency is missing).
+func (s *session) failDeliver(op Op, n int) (failed bool, err error) {
+	b := s.w.b[op.I]
+	herr := s.task(fmt.Sprintf("c%d", op.C), func() {
+		ctx := context.Background()
+		had := s.srcSt.Has(b.RefS)
+		if _, err := s.srcW.ReceiveBlob(ctx, b.Ref, bytes.NewReader(b.Data)); err != nil {
+			s.mu.Lock()
+			s.recvErrs = append(s.recvErrs, fmt.Sprintf("source put %s: %v", b.RefS, err))
+			s.mu.Unlock()
+		}
+		s.mu.Lock()
+		if s.failHave == nil {
+			s.failHave = map[string]bool{}
+		}
+		s.failHave["have:"+b.RefS] = true
+		s.mu.Unlock()
+		_, rerr := s.idx.ReceiveBlob(ctx, b.Ref, bytes.NewReader(b.Data))
+		s.mu.Lock()
+		delete(s.failHave, "have:"+b.RefS)
+		switch {
+		case rerr != nil && errors.Is(rerr, sim.ErrInjected):
+			failed = true
+			s.reach["delivery-failed-at-commit"]++
+			if !had {
+				s.srcSt.Del(b.RefS)
+			}
+		case rerr != nil:
+			s.delivered[b.RefS] = true
+			s.recvErrs = append(s.recvErrs, fmt.Sprintf("index receive of item %d (%s): %v", op.I, s.w.item(op.I).K, rerr))
+		default:
+			s.delivered[b.RefS] = true
+		}
+		s.mu.Unlock()
+	})
+	if herr != nil {
+		return false, herr
+	}
+	return failed, s.await()
 }
 
 // stallSrc is the blob source as the index sees it when misses are slow.
@@ -263,7 +372,10 @@ func (s *session) task(name string, f func()) error {
 func (s *session) open() error {
 	var oerr error
 	herr := s.task("open", func() {
-		kv := &sim.SimKV{Env: s.env, G: s.env.Gen, St: s.kvSt}
+		var kv sorted.KeyValue = &sim.SimKV{Env: s.env, G: s.env.Gen, St: s.kvSt}
+		if s.faultKV {
+			kv = faultKV{kv, s}
+		}
 		s.srcW = &sim.SimStore{Env: s.env, G: s.env.Gen, St: s.srcSt}
 		idx, err := index.New(kv)
 		if err != nil {
@@ -493,6 +605,8 @@ func (w *world) describeOps(ops []Op) []string {
 			out = append(out, s)
 		case "bulk":
 			out = append(out, fmt.Sprintf("c%d: %d opaque filler blobs", op.C, op.N))
+		case "faildeliver":
+			out = append(out, fmt.Sprintf("c%d: %s [the index rows fail the commit of this blob once]", op.C, w.describe(op.I)))
 		default:
 			out = append(out, op.K)
 		}
@@ -511,6 +625,8 @@ func opKinds(w *world, ops []Op) string {
 			}
 		case "bulk":
 			sb.WriteString("B")
+		case "faildeliver":
+			sb.WriteString("!" + w.item(op.I).K[:1])
 		case "restart":
 			sb.WriteString("R")
 		case "check":
